@@ -120,7 +120,14 @@ def partition(chk: Check, n, kinds):
 def selection(chk: Check, n):
     import numpy as np
     import pyarrow as pa
-    from tea_tasting.metrics.resampling import _select_as_numpy
+    try:
+        from tea_tasting.metrics.resampling import _select_as_numpy
+    except ImportError:
+        # a private helper: its absence is a refactoring, not a violation — the tie of Model selectAsNumpy is gone,
+        # the public behaviour (declared column order, vector vs stack) is decided by bootstrap_runs
+        chk.disagree("tea_tasting.metrics.resampling._select_as_numpy no longer exists: selectAsNumpy of "
+                     "Model/Granular.lean has no counterpart to compare with", dict(module="tea_tasting.metrics.resampling"))
+        return
     rng = chk.rng
     names = ["x", "y", "z", "w"]
     jobs = []
